@@ -81,6 +81,14 @@ def rotation_cases(tb, rnd, tier):
                     c['tag'] = 'openssh-gex-2048'
                     cases.append(c)
             add(role, marker, cha + ['chacha20-poly1305@example.org', 'aes128-ctr'], [rnd.choice(other_mac)], 'several-chacha')
+            # a peer that announces protocol 1.99 (SSH-2 with SSH-1 compatibility) is audited over SSH-2 like any other: same rule
+            for enc, mac in ((cha + ['aes256-ctr'], ['hmac-sha2-256']), ([cbc[0]], [etm[0]])):
+                cid[0] += 1
+                kex = ['curve25519-sha256'] + ([rating_marker(role)] if marker == 'own' else [rating_marker('client' if role == 'server' else 'server')] if marker == 'other' else [])
+                c = rating.mk_case(cid[0], role=role, kex=kex, key=['ssh-ed25519'], enc=enc, mac=mac, banner='SSH-1.99-OpenSSH_3.9p1',
+                                   sw={'product': 'OpenSSH', 'c': [3, 9], 'p': ['p', 1]})
+                c['tag'] = 'announces-1.99'
+                cases.append(c)
             # several at once, duplicates
             add(role, marker, cha + cbc[:3] + [cbc[0]], etm[:2] + [etm[0]], 'many+dups')
     return cases
